@@ -50,7 +50,9 @@ pub struct FmtPlan {
 #[derive(Debug, Clone, Serialize, Deserialize, PartialEq, Eq)]
 pub struct ProcessPlan {
     pub env: Vec<(String, String)>,
-    /// 0 empty scratch dir, 1 scratch dir with rustfmt.toml and a decoy shader.wgsl, 2 "/", 3 deep dir
+    /// 0 empty scratch dir, 1 scratch dir with rustfmt.toml and a decoy shader.wgsl, 2 "/", 3 deep
+    /// dir, 4 a directory full of near misses and conventional neighbours (for code that lists
+    /// directories)
     pub cwd_kind: u8,
     pub clock_skew_s: i64,
     pub clock_jump_s: i64,
@@ -74,6 +76,10 @@ pub struct ProcessPlan {
     /// argv[0] that does not exist as a path.
     #[serde(default)]
     pub argv_kind: u8,
+    /// Who the process is (host name, user id, parent pid), derived from this number; 0 = the
+    /// real identity of the harness.
+    #[serde(default)]
+    pub identity: u64,
 }
 
 #[derive(Debug, Clone, Serialize, Deserialize, PartialEq, Eq)]
@@ -94,6 +100,10 @@ struct WorkerInput {
     /// the directory TMPDIR points to for this run: must look the same after the calls
     #[serde(default)]
     tmp_dir: Option<String>,
+    /// golden outcome hash per pool entry for a call whose formatter could not be started
+    /// (0 = unknown: do not compare)
+    #[serde(default)]
+    golden_without_formatter: Vec<u64>,
 }
 
 #[derive(Debug, Clone, Serialize, Deserialize)]
@@ -382,6 +392,7 @@ fn run_process(input: &WorkerInput) -> WorkerOutput {
     }
     seams::set_clock(p.clock_skew_s, p.clock_jump_s, p.clock_jump_after);
     seams::set_cpu_count(p.cpus);
+    seams::set_process_identity(p.identity);
     let env_before: BTreeMap<String, String> = std::env::vars_os()
         .map(|(k, v)| (k.to_string_lossy().into_owned(), v.to_string_lossy().into_owned()))
         .collect();
@@ -399,6 +410,7 @@ fn run_process(input: &WorkerInput) -> WorkerOutput {
     let sources: Arc<Vec<String>> = Arc::new(input.pool.iter().map(|j| j.shader.source()).collect());
     let pool = Arc::new(input.pool.clone());
     let golden = Arc::new(input.golden.clone());
+    let golden_without_formatter = Arc::new(input.golden_without_formatter.clone());
     let results = Arc::new(Mutex::new(Vec::<JobResult>::new()));
     let spawns = Arc::new(AtomicU64::new(0));
     let unreaped = Arc::new(AtomicU64::new(0));
@@ -414,6 +426,7 @@ fn run_process(input: &WorkerInput) -> WorkerOutput {
         let sources = sources.clone();
         let pool = pool.clone();
         let golden = golden.clone();
+        let golden_without_formatter = golden_without_formatter.clone();
         let results = results.clone();
         let fmt = p.fmt.clone();
         let tick_ns = p.tick_ns;
@@ -486,16 +499,23 @@ fn run_process(input: &WorkerInput) -> WorkerOutput {
                         }
                         sched.set_in_call(tid, false);
                         let result = match r {
-                            Ok(_) if backend.formatter_fault_in_this_call.load(Ordering::Relaxed) => JobResult {
-                                tid,
-                                qidx,
-                                pool_idx,
-                                hash: 0,
-                                class: "formatter_could_not_be_started".into(),
-                                completed: false,
-                                matches: true,
-                                outcome: None,
-                            },
+                            // The formatter of this call could not be started: what comes back is
+                            // compared with what a pristine process returns in the same situation.
+                            Ok(outcome) if backend.formatter_fault_in_this_call.load(Ordering::Relaxed) => {
+                                let hash = outcome.hash();
+                                let want = golden_without_formatter.get(pool_idx).copied().unwrap_or(0);
+                                let matches = want == 0 || want == hash;
+                                JobResult {
+                                    tid,
+                                    qidx,
+                                    pool_idx,
+                                    hash,
+                                    class: "formatter_could_not_be_started".into(),
+                                    completed: false,
+                                    matches,
+                                    outcome: (!matches || return_all).then_some(outcome),
+                                }
+                            }
                             Ok(outcome) => {
                                 let hash = outcome.hash();
                                 let want = golden[pool_idx];
@@ -719,7 +739,19 @@ impl Scratch {
         let root = self
             .root
             .join(format!("run-{}", COUNTER.fetch_add(1, Ordering::Relaxed)));
-        for d in ["tmp", "home", "out", "manifest", "cwd-empty", "cwd-decoy", "cwd-deep/a/b/c/d"] {
+        for d in [
+            "tmp",
+            "home",
+            "out",
+            "manifest",
+            "cwd-empty",
+            "cwd-decoy",
+            "cwd-deep/a/b/c/d",
+            "cwd-listing/src",
+            "cwd-listing/shaders",
+            "cwd-listing/.wgsl_to_wgpu",
+            "cwd-listing/include",
+        ] {
             std::fs::create_dir_all(root.join(d)).map_err(|e| format!("sandbox: {e}"))?;
         }
         std::fs::write(
@@ -733,6 +765,20 @@ impl Scratch {
             "this is not the shader you are looking for",
         )
         .map_err(|e| e.to_string())?;
+        // A directory for code that LISTS directories: near misses of the include path (other
+        // case, other extension), conventional neighbours, an include directory, a cache directory.
+        for (name, content) in [
+            ("cwd-listing/Shader.WGSL", "this is not the shader you are looking for either"),
+            ("cwd-listing/shader.wgsl.bak", "@fragment fn stale() {}"),
+            ("cwd-listing/shader.override.wgsl", "@fragment fn overridden() {}"),
+            ("cwd-listing/src/SHADER.wgsl", "@fragment fn wrong_case() {}"),
+            ("cwd-listing/shaders/common.wgsl", "const FROM_THE_INCLUDE_DIRECTORY: u32 = 1u;"),
+            ("cwd-listing/include/prelude.wgsl", "const FROM_THE_PRELUDE: u32 = 2u;"),
+            ("cwd-listing/.wgsl_to_wgpu/0000000000000000.rs", "pub const FROM_A_CACHE_ENTRY: u32 = 3;"),
+            ("cwd-listing/Cargo.toml", "[package]\nname = \"decoy\"\nversion = \"9.9.9\"\n"),
+        ] {
+            std::fs::write(root.join(name), content).map_err(|e| e.to_string())?;
+        }
         Ok(Sandbox { root })
     }
 
@@ -753,6 +799,7 @@ impl Sandbox {
             0 => self.root.join("cwd-empty"),
             1 => self.root.join("cwd-decoy"),
             2 => PathBuf::from("/"),
+            4 => self.root.join("cwd-listing"),
             _ => self.root.join("cwd-deep/a/b/c/d"),
         }
     }
@@ -866,6 +913,7 @@ fn pristine_process(job_count: usize) -> ProcessPlan {
         },
         plant_files: vec![],
         argv_kind: 0,
+        identity: 0,
     }
 }
 
@@ -873,18 +921,40 @@ type Golden = Mutex<HashMap<Job, Outcome>>;
 
 /// Golden table entry: the job alone, first, in a pristine process.
 fn golden_for(scratch: &Scratch, golden: &Golden, job: &Job) -> Result<Outcome, String> {
-    if let Some(o) = golden.lock().unwrap().get(job) {
+    golden_entry(scratch, golden, job, false)
+}
+
+/// The same for a call whose formatter cannot be started (a second table under a marked key).
+fn golden_without_formatter_for(scratch: &Scratch, golden: &Golden, job: &Job) -> Result<Outcome, String> {
+    golden_entry(scratch, golden, job, true)
+}
+
+fn golden_entry(scratch: &Scratch, golden: &Golden, job: &Job, formatter_unavailable: bool) -> Result<Outcome, String> {
+    let key = if formatter_unavailable {
+        Job {
+            include_path: Some(format!("\u{1}formatter unavailable\u{1}{}", job.include_path.as_deref().unwrap_or("\u{2}"))),
+            ..job.clone()
+        }
+    } else {
+        job.clone()
+    };
+    if let Some(o) = golden.lock().unwrap().get(&key) {
         return Ok(o.clone());
     }
     // a pristine process starts in a fresh sandbox of its own
     let sandbox = scratch.sandbox()?;
+    let mut process = pristine_process(1);
+    if formatter_unavailable {
+        process.threads[0].failing_spawns = vec![1];
+    }
     let input = WorkerInput {
         pool: vec![job.clone()],
         golden: vec![0],
-        process: pristine_process(1),
+        process,
         record_log: false,
         return_all_outcomes: true,
         tmp_dir: Some(sandbox.root.to_string_lossy().into_owned()),
+        golden_without_formatter: vec![0],
     };
     let out = spawn_worker(scratch, &sandbox, &input)?;
     let outcome = out
@@ -892,7 +962,7 @@ fn golden_for(scratch: &Scratch, golden: &Golden, job: &Job) -> Result<Outcome, 
         .first()
         .and_then(|r| r.outcome.clone())
         .ok_or_else(|| format!("pristine process returned nothing for {} ({:?})", job.describe(), out.abort))?;
-    golden.lock().unwrap().insert(job.clone(), outcome.clone());
+    golden.lock().unwrap().insert(key, outcome.clone());
     Ok(outcome)
 }
 
@@ -1125,7 +1195,7 @@ pub fn gen_plan(rng: &mut Rng) -> RunPlan {
         let year = 365 * 24 * 3600i64;
         processes.push(ProcessPlan {
             env,
-            cwd_kind: rng.below(4) as u8,
+            cwd_kind: rng.below(5) as u8,
             clock_skew_s: if rng.chance(600) {
                 (rng.below(60) as i64 - 45) * year
             } else {
@@ -1154,6 +1224,7 @@ pub fn gen_plan(rng: &mut Rng) -> RunPlan {
             },
             plant_files: vec![],
             argv_kind: *rng.pick(&[0u8, 0, 1, 2]),
+            identity: if rng.chance(600) { rng.next_u64() | 1 } else { 0 },
         });
     }
     RunPlan { pool, processes }
@@ -1247,6 +1318,21 @@ fn execute(scratch: &Scratch, golden: &Golden, plan: &RunPlan, record: bool) -> 
         expected.push(golden_for(scratch, golden, job)?);
     }
     let hashes: Vec<u64> = expected.iter().map(|o| o.hash()).collect();
+    // second table, only where it is needed: jobs that ask for the formatter, in plans in which
+    // some formatter cannot be started
+    let some_formatter_fails = plan.processes.iter().any(|p| p.threads.iter().any(|t| !t.failing_spawns.is_empty()));
+    let mut expected_without_formatter: Vec<Option<Outcome>> = Vec::new();
+    for job in &plan.pool {
+        expected_without_formatter.push(if some_formatter_fails && job.options.rustfmt {
+            Some(golden_without_formatter_for(scratch, golden, job)?)
+        } else {
+            None
+        });
+    }
+    let hashes_without_formatter: Vec<u64> = expected_without_formatter
+        .iter()
+        .map(|o| o.as_ref().map(|o| o.hash()).unwrap_or(0))
+        .collect();
     let mut divergences = Vec::new();
     let mut stats = RunStats::default();
     let mut hasher = Hasher::default();
@@ -1266,6 +1352,7 @@ fn execute(scratch: &Scratch, golden: &Golden, plan: &RunPlan, record: bool) -> 
             record_log: record,
             return_all_outcomes: false,
             tmp_dir: Some(sandbox.root.to_string_lossy().into_owned()),
+            golden_without_formatter: hashes_without_formatter.clone(),
         };
         let out = spawn_worker(scratch, &sandbox, &input)?;
         if let Some(abort) = &out.abort {
@@ -1307,6 +1394,24 @@ fn execute(scratch: &Scratch, golden: &Golden, plan: &RunPlan, record: bool) -> 
                 crashed = true;
                 if r.class == "formatter_could_not_be_started" {
                     stats.formatter_spawn_faults += 1;
+                    if !r.matches {
+                        let exp = expected_without_formatter[r.pool_idx].clone();
+                        let detail = match (exp.as_ref(), r.outcome.as_ref()) {
+                            (Some(Outcome::Ok { text: a }), Some(Outcome::Ok { text: b })) => first_difference(a, b),
+                            (e, a) => format!("expected {} got {}", e.map(|e| e.brief()).unwrap_or_default(), a.map(|a| a.brief()).unwrap_or_default()),
+                        };
+                        divergences.push(Divergence {
+                            class: "diverged:formatter_unavailable".into(),
+                            process: pi,
+                            detail: format!(
+                                "thread {} job #{}: a call whose formatter could not be started returned something else than the same call in a pristine process whose formatter could not be started: {detail}",
+                                r.tid, r.qidx
+                            ),
+                            job: Some(plan.pool[r.pool_idx].clone()),
+                            expected: exp,
+                            actual: r.outcome.clone(),
+                        });
+                    }
                 }
                 continue;
             }
